@@ -83,6 +83,8 @@ def run_modes(ctx, tr, pats, fn, flags, kw, wit, compare_roots=True):
     fd = os.open(root, os.O_RDONLY | os.O_DIRECTORY)
     try:
         results['dir_fd'] = G.glob(pats, flags=flags, dir_fd=fd, **kw)
+        results['iglob dir_fd'] = list(G.iglob(pats, flags=flags, dir_fd=fd, **kw))
+        results['iglob PathLike'] = list(G.iglob(pats, flags=flags, root_dir=pathlib.Path(root), **kw))
         ctx.count('dir_fd_runs')
     except Exception as e:  # noqa: BLE001
         results['dir_fd'] = f'raised {type(e).__name__}'
